@@ -24,11 +24,15 @@
       - [relate_complete_two_sided]: unknowns on both sides (var/var unions, occurs check with
         promotion), raw pointers excluded.
     In each, [relate] succeeds without goals and [θ] solves the resulting table (every such
-    unifier factors through the result).  Integer / float kinds: only the three leaf cases
+    unifier factors through the result).  Conversely ([relate_unifiers_exact], from soundness read
+    in the term model): every ground solution of the resulting table solves the initial table and
+    unifies the two types — so the result represents EXACTLY the set of ground unifiers (the
+    semantic content of "most general"), and ([relate_nosol_no_unifier]) a failing [relate] means
+    that no ground unifier exists.  Integer / float kinds: only the three leaf cases
     ([relate_complete_numeric_scalar], [_numeric_var_var], [_general_numeric]) are proved, each in
     isolation.  Open: integer / float unknowns inside the two-sided induction, lifetimes (goals),
     raw pointers on two-sided problems, non-ground unifiers. *)
-From Chalk Require Import Ir.Syntax Infer.Table Infer.Unify Infer.Sound Infer.Complete Infer.Complete2 Infer.Complete3.
+From Chalk Require Import Ir.Syntax Infer.Table Infer.Unify Infer.Sound Infer.Complete Infer.Complete2 Infer.Complete3 Infer.Exact.
 
 Theorem relate_sound : forall ar adt_var fn_var fuel a b t gs t' K U,
   inv ar K U t -> okt ar K t a -> okt ar K t b ->
@@ -127,6 +131,36 @@ Check relate_complete_two_sided : forall adt_var fn_var θ fuel a b t,
   app_subst θ a = app_subst θ b -> (2 * Closed.depth (app_subst θ a) < fuel)%nat -> solves θ t -> traw t ->
   exists t', relate adt_var fn_var fuel Invariant a b t = (Done [], t')
              /\ solves θ t' /\ traw t' /\ nvars t' = nvars t /\ pext t t'.
+
+(** Exactness (lifetime-free types, general unknowns, no raw pointers): after a successful
+    [relate] without residual goals, the ground universe-respecting solutions of the resulting
+    table are exactly the solutions of the initial table that unify [a] and [b]. *)
+Theorem relate_unifiers_exact : forall ar adt_var fn_var fuel a b t t' K U,
+  inv ar K U t -> okt ar K t a -> okt ar K t b ->
+  pattern a = true -> pattern b = true -> noraw a = true -> noraw b = true -> traw t ->
+  relate adt_var fn_var fuel Invariant a b t = (Done [], t') ->
+  forall θ, (solves θ t' -> solves θ t /\ app_subst θ a = app_subst θ b)
+         /\ (solves θ t -> app_subst θ a = app_subst θ b -> (2 * depth (app_subst θ a) < fuel)%nat -> solves θ t').
+Proof. exact relate_unifiers_exact_lemma. Qed.
+Check relate_unifiers_exact : forall ar adt_var fn_var fuel a b t t' K U,
+  inv ar K U t -> okt ar K t a -> okt ar K t b ->
+  pattern a = true -> pattern b = true -> noraw a = true -> noraw b = true -> traw t ->
+  relate adt_var fn_var fuel Invariant a b t = (Done [], t') ->
+  forall θ, (solves θ t' -> solves θ t /\ app_subst θ a = app_subst θ b)
+         /\ (solves θ t -> app_subst θ a = app_subst θ b -> (2 * depth (app_subst θ a) < fuel)%nat -> solves θ t').
+
+(** If [relate] answers [NoSolution], no ground solution of the table unifies the two types. *)
+Theorem relate_nosol_no_unifier : forall adt_var fn_var fuel a b t t' θ,
+  pattern a = true -> pattern b = true -> noraw a = true -> noraw b = true ->
+  (forall v, In v (pvars a) -> v < nvars t) -> (forall v, In v (pvars b) -> v < nvars t) -> traw t ->
+  relate adt_var fn_var fuel Invariant a b t = (NoSol, t') ->
+  solves θ t -> (2 * depth (app_subst θ a) < fuel)%nat -> app_subst θ a <> app_subst θ b.
+Proof. exact relate_nosol_no_unifier_lemma. Qed.
+Check relate_nosol_no_unifier : forall adt_var fn_var fuel a b t t' θ,
+  pattern a = true -> pattern b = true -> noraw a = true -> noraw b = true ->
+  (forall v, In v (pvars a) -> v < nvars t) -> (forall v, In v (pvars b) -> v < nvars t) -> traw t ->
+  relate adt_var fn_var fuel Invariant a b t = (NoSol, t') ->
+  solves θ t -> (2 * depth (app_subst θ a) < fuel)%nat -> app_subst θ a <> app_subst θ b.
 
 (** An unbound integer (float) unknown related with an integer (float) scalar is bound to it. *)
 Theorem relate_complete_numeric_scalar : forall adt_var fn_var f v k s t c u vr,
